@@ -52,7 +52,11 @@ DOCS = [("notes.txt", "text", "plain", "attached text\nsecond line\n".encode()),
         ("blob.bin", "application", "octet-stream", bytes(range(256))),
         ("empty.dat", "application", "octet-stream", b""),
         ("Ünï cödé.txt", "text", "plain", b"named with non-ascii\n"),
-        ("image.png", "image", "png", b"\x89PNG\r\n\x1a\n" + b"\x00" * 20)]
+        ("image.png", "image", "png", b"\x89PNG\r\n\x1a\n" + b"\x00" * 20),
+        # generic labels: the name decides (routing is by name first)
+        ("page2.html", "text", "plain", b"<html><body><h1>Quarterly</h1><p>Revenue grew.</p></body></html>"),
+        ("table.csv", "text", "plain", b"x,y\n5,6\n"),
+        ("notes.md", "application", "json", b"# not json\n\nbut markdown\n")]
 
 
 def _addr(rng):
@@ -508,38 +512,56 @@ def check_dispatch():
 
     behaviour = {"v": "ok"}
 
+    def ident(path):
+        f = real(path)
+        return f"{f.__module__}.{f.__name__}"
+
     def fake_get_extractor(path):
-        try:
-            real(path)
-        except ExtractionFileFormatNotSupportedError:
-            raise
-        return spy_extractor(path, behaviour["v"])
+        return spy_extractor(ident(path), behaviour["v"])      # raises ExtractionFileFormatNotSupportedError like the real one
 
     router.get_extractor = fake_get_extractor
     try:
+        import itertools
+        # (file name, declared MIME type, support flag, path the router must be asked for | None = skipped)
         cases = [("report.pdf", "application/pdf", True, "report.pdf"), ("noext", "application/pdf", True, "attachment.pdf"),
                  ("weird.xyz123", "text/csv", True, "attachment.csv"), ("x.bin", "application/octet-stream", False, None),
-                 ("noext2", "application/x-unknown", True, None), ("a.txt", "text/plain", True, "a.txt")]
+                 ("noext2", "application/x-unknown", True, None), ("a.txt", "text/plain", True, "a.txt"),
+                 # same declared type, names that route differently (generic labels are common: text/plain, application/zip)
+                 ("page.html", "text/plain", True, "page.html"), ("bundle.zip", "application/zip", True, "bundle.zip"),
+                 ("report.docx", "application/zip", True, "report.docx"), ("noext3", "text/plain", True, "attachment.txt")]
+        # every attachment is routed on its own: sequences of 1..3 attachments (state must not leak between iterations)
+        seqs = [c for k in (1, 2) for c in itertools.product(cases, repeat=k)] + \
+               [c for c in itertools.product(cases, repeat=3) if len({x[1] for x in c}) < 3]
         for beh in ("ok", "raise", "encrypted"):
             behaviour["v"] = beh
-            for (fn, mt, flag, routed) in cases:
+            for seq in seqs:
                 calls.clear()
-                att = EmailAttachment(filename=fn, mime_type=mt, data=io.BytesIO(b"0123456789"), is_supported_mime_type=flag)
-                att.data.seek(5)
-                c = EmailContent(from_email=EmailAddress(), attachments=[att])
+                atts = [EmailAttachment(filename=fn, mime_type=mt, data=io.BytesIO(b"0123456789"), is_supported_mime_type=flag) for (fn, mt, flag, _r) in seq]
+                for att in atts:
+                    att.data.seek(5)
+                c = EmailContent(from_email=EmailAddress(), attachments=atts)
                 exc = None
                 try:
                     list(c.iterate_supported_attachments())
                 except Exception as e:  # noqa
                     exc = e
-                want_calls = [] if routed is None else [(routed, fn, 0)]
-                want_exc = ExtractionFileEncryptedError if (beh == "encrypted" and routed is not None) else None
-                ok = calls == want_calls and (type(exc) if exc else None) == want_exc and (routed is None or att.data.tell() == 0)
+                want_calls, want_exc, touched = [], None, []
+                for att, (fn, mt, flag, routed) in zip(atts, seq):
+                    if routed is None:
+                        continue
+                    want_calls.append((ident(routed), fn, 0))
+                    touched.append(att)
+                    if beh == "encrypted":
+                        want_exc = ExtractionFileEncryptedError
+                        break
+                ok = calls == want_calls and (type(exc) if exc else None) == want_exc and all(a_.data.tell() == 0 for a_ in touched)
                 if not ok:
                     return {"target": "data_types.py::EmailContent.iterate_supported_attachments",
-                            "inputs": {"filename": fn, "mime_type": mt, "is_supported_mime_type": flag, "extractor_behaviour": beh, "stream_position_before": 5},
-                            "expected": {"calls (routed path, name, position)": want_calls, "exception": want_exc.__name__ if want_exc else None, "position_after": 0},
-                            "observed": {"calls": list(calls), "exception": repr(exc), "position_after": att.data.tell()}}
+                            "inputs": {"attachments (filename, mime_type, is_supported_mime_type)": [x[:3] for x in seq], "extractor_behaviour": beh,
+                                       "stream_position_before": 5},
+                            "expected": {"calls (extractor the router gives for the file on its own / its MIME type, name passed, stream position)": want_calls,
+                                         "exception": want_exc.__name__ if want_exc else None, "position_after": 0},
+                            "observed": {"calls": list(calls), "exception": repr(exc), "positions_after": [a_.data.tell() for a_ in atts]}}
         for mt, ft in MIME_TYPE_MAPPING.items():
             try:
                 real(f"attachment.{ft}")
